@@ -32,14 +32,15 @@ import (
 func init() { logx.Disable() }
 
 type c01Step struct {
-	N int `json:"n"` // name index = target*NM + method
+	N int `json:"n"` // name index = target*NM + method; -1: no call, the whole case sleeps 11 s (longer than the 10 s window)
 	O int `json:"o"` // 0..16 gRPC code, 100 nil, 101 plain error, 102 context.Canceled
 }
 
 type c01RunCase struct {
-	NT    int       `json:"nt"`   // targets (client) / 1 (server)
-	NM    int       `json:"nm"`   // methods
-	Kind  []int     `json:"kind"` // per name: 0 benign, 1 failing, 2 mixed
+	NT    int       `json:"nt"`            // targets (client) / 1 (server)
+	NM    int       `json:"nm"`            // methods
+	Kind  []int     `json:"kind"`          // per name: 0 benign, 1 failing, 2 mixed, 3 outage - recovery - second outage (phases separated by the 11 s sleeps)
+	Sfx   int       `json:"sfx,omitempty"` // alphabet of the method names, see c01MethodSuffix
 	Steps []c01Step `json:"steps"`
 	Skew  int64     `json:"skew,omitempty"` // ns slept first (varies the breakers' PRNG seeds)
 }
@@ -62,6 +63,13 @@ var (
 		return out
 	}()
 )
+
+// c01MethodSuffix: method names are arbitrary strings for the breaker registry
+// (format verbs, multi-byte, glob metacharacters, blanks; no path separators or
+// dots, which path.Join in the client interceptor would normalise).
+func c01MethodSuffix(k int) string {
+	return []string{"", "%s%d%!v(%", "方法", "*?[a-z]+(", " m ", "M"}[((k%6)+6)%6]
+}
 
 func c01IsFailing(o int) bool {
 	for _, f := range c01Failing {
@@ -86,26 +94,45 @@ func c01Outcome(o int) error {
 
 // c01Interleave merges the per-name scripts in generated chunks (so that one
 // name may run 300 calls in a row while another waits, or strictly alternate).
-func c01Interleave(rt *rapid.T, scripts [][]int) []c01Step {
+// With phases (outage-recovery cases) the scripts are cut into three parts at
+// cuts[n] (names without cuts: thirds) and an 11 s sleep separates the parts.
+func c01Interleave(rt *rapid.T, scripts [][]int, cuts [][2]int, nph int) []c01Step {
 	pos := make([]int, len(scripts))
 	var steps []c01Step
-	for {
-		var active []int
+	for ph := 0; ph < nph; ph++ {
+		end := make([]int, len(scripts))
 		for n := range scripts {
-			if pos[n] < len(scripts[n]) {
-				active = append(active, n)
+			switch {
+			case ph == nph-1:
+				end[n] = len(scripts[n])
+			case cuts[n][1] > 0:
+				end[n] = cuts[n][ph]
+			default:
+				end[n] = len(scripts[n]) * (ph + 1) / nph
 			}
 		}
-		if len(active) == 0 {
-			return steps
+		for {
+			var active []int
+			for n := range scripts {
+				if pos[n] < end[n] {
+					active = append(active, n)
+				}
+			}
+			if len(active) == 0 {
+				break
+			}
+			n := rapid.SampledFrom(active).Draw(rt, "name")
+			chunk := rapid.SampledFrom([]int{1, 1, 2, 5, 20, 100, 400}).Draw(rt, "chunk")
+			for ; chunk > 0 && pos[n] < end[n]; chunk-- {
+				steps = append(steps, c01Step{N: n, O: scripts[n][pos[n]]})
+				pos[n]++
+			}
 		}
-		n := rapid.SampledFrom(active).Draw(rt, "name")
-		chunk := rapid.SampledFrom([]int{1, 1, 2, 5, 20, 100, 400}).Draw(rt, "chunk")
-		for ; chunk > 0 && pos[n] < len(scripts[n]); chunk-- {
-			steps = append(steps, c01Step{N: n, O: scripts[n][pos[n]]})
-			pos[n]++
+		if ph < nph-1 {
+			steps = append(steps, c01Step{N: -1})
 		}
 	}
+	return steps
 }
 
 func c01GenRun(minT, maxT int) func(rt *rapid.T) c01RunCase {
@@ -115,12 +142,33 @@ func c01GenRun(minT, maxT int) func(rt *rapid.T) c01RunCase {
 			c.NM = rapid.IntRange(1, 4).Draw(rt, "nm4")
 		}
 		c.Skew = rapid.Int64Range(0, 1_000_000_000).Draw(rt, "skew")
+		c.Sfx = rapid.IntRange(0, 5).Draw(rt, "sfx")
+		recovery := rapid.IntRange(0, 3).Draw(rt, "recovery") == 0 // two 11 s sleeps in the case: no plain failing name in it
+		cuts := make([][2]int, c.NT*c.NM)
 		var scripts [][]int
 		for n := 0; n < c.NT*c.NM; n++ {
 			kind := rapid.SampledFrom([]int{0, 0, 1, 1, 2}).Draw(rt, "kind")
+			if recovery {
+				kind = rapid.SampledFrom([]int{3, 3, 0, 2}).Draw(rt, "rkind")
+			}
 			c.Kind = append(c.Kind, kind)
 			var s []int
 			switch kind {
+			case 3:
+				for ph := 0; ph < 3; ph++ {
+					ln := rapid.IntRange(200, 240).Draw(rt, "n")
+					f := rapid.SampledFrom(c01Failing).Draw(rt, "the")
+					for i := 0; i < ln; i++ {
+						if ph == 1 {
+							s = append(s, rapid.SampledFrom(c01BenignIn).Draw(rt, "o"))
+						} else {
+							s = append(s, f)
+						}
+					}
+					if ph < 2 {
+						cuts[n][ph] = len(s)
+					}
+				}
 			case 0:
 				ln := rapid.IntRange(200, 300).Draw(rt, "n")
 				pool := c01BenignIn
@@ -149,7 +197,11 @@ func c01GenRun(minT, maxT int) func(rt *rapid.T) c01RunCase {
 			}
 			scripts = append(scripts, s)
 		}
-		c.Steps = c01Interleave(rt, scripts)
+		nph := 1
+		if recovery {
+			nph = 3
+		}
+		c.Steps = c01Interleave(rt, scripts, cuts, nph)
 		return c
 	}
 }
@@ -161,6 +213,7 @@ func c01Judge(t *testing.T, c c01RunCase, call func(run int64, ti, mi int, want 
 	var fail string
 	k := c.NT * c.NM
 	rejected := make([]int, k)
+	rejPhase := make([][3]int, k)
 	nfail := make([]int, k)
 	calls := make([]int, k)
 	res := kit.Bubble(t, func() {
@@ -168,23 +221,36 @@ func c01Judge(t *testing.T, c c01RunCase, call func(run int64, ti, mi int, want 
 			time.Sleep(time.Duration(c.Skew))
 		}
 		run := atomic.AddInt64(&c01NameSeq, 1)
+		phase := 0
 		for i, st := range c.Steps {
+			if st.N < 0 {
+				time.Sleep(11 * time.Second)
+				phase++
+				continue
+			}
 			n := st.N % k
 			want := c01Outcome(st.O)
 			if c01IsFailing(st.O) {
 				nfail[n]++
 			}
 			calls[n]++
-			ran, got := call(run, n/c.NM, n%c.NM, want)
+			ran, got := call(run*8+int64(c.Sfx%6), n/c.NM, n%c.NM, want)
 			what := fmt.Sprintf("step %d (target %d, method %d, call %d of that name, outcome %v)", i, n/c.NM, n%c.NM, calls[n], want)
 			if !ran {
 				rejected[n]++
+				if phase < 3 {
+					rejPhase[n][phase]++
+				}
 				if got != breaker.ErrServiceUnavailable {
 					fail = fmt.Sprintf("%s: protected function not run but result is %v", what, got)
 					return
 				}
 				if c.Kind[n] == 0 {
 					fail = fmt.Sprintf("%s rejected by the breaker although this name recorded only benign outcomes and %d (<=5) failing ones; kinds of all names: %v", what, nfail[n], c.Kind)
+					return
+				}
+				if c.Kind[n] == 3 && phase == 1 {
+					fail = fmt.Sprintf("%s rejected in the recovery phase: the outage ended more than 10 s ago (11 s sleep), every failure has aged out of the window and only benign outcomes followed", what)
 					return
 				}
 				continue
@@ -195,6 +261,10 @@ func c01Judge(t *testing.T, c c01RunCase, call func(run int64, ti, mi int, want 
 			}
 		}
 		for n := 0; n < k; n++ {
+			if c.Kind[n] == 3 && (rejPhase[n][0] == 0 || rejPhase[n][2] == 0) {
+				fail = fmt.Sprintf("name (target %d, method %d): rejections per phase %v: each outage (>= 200 consecutive failing outcomes, nothing else in the window) must be cut off at least once", n/c.NM, n%c.NM, rejPhase[n])
+				return
+			}
 			if c.Kind[n] == 1 && rejected[n] == 0 {
 				fail = fmt.Sprintf("name (target %d, method %d): %d consecutive failing outcomes were all admitted: the breaker never cut off a dependency that keeps failing", n/c.NM, n%c.NM, calls[n])
 				return
@@ -204,7 +274,7 @@ func c01Judge(t *testing.T, c c01RunCase, call func(run int64, ti, mi int, want 
 	classes := map[string]bool{}
 	hasB, hasF := false, false
 	for n, kd := range c.Kind {
-		classes[[]string{"benign-name", "failing-name", "mixed-name"}[kd]] = true
+		classes[[]string{"benign-name", "failing-name", "mixed-name", "outage-recovery-outage-name"}[kd]] = true
 		if kd == 0 {
 			hasB = true
 			if nfail[n] > 0 {
@@ -224,7 +294,10 @@ func c01Judge(t *testing.T, c c01RunCase, call func(run int64, ti, mi int, want 
 	if k > 1 {
 		classes["several-names"] = true
 	}
-	v.NonTrivial = k > 1 && hasB && hasF
+	if c.Sfx%6 != 0 {
+		classes["method-name-special-characters"] = true
+	}
+	v.NonTrivial = (k > 1 && hasB && hasF) || classes["outage-recovery-outage-name"]
 	for c := range classes {
 		v.Classes = append(v.Classes, c)
 	}
@@ -255,7 +328,7 @@ func TestVerif_C01_grpc_client(t *testing.T) {
 	kit.Run(t, "C01", "grpc-client-run", kit.Opts{Quick: 300, Thorough: 6400}, c01GenRun(2, 3), func(c c01RunCase) kit.Verdict {
 		return c01Judge(t, c, func(run int64, ti, mi int, want error) (bool, error) {
 			ran := false
-			method := fmt.Sprintf("/verif.C01/run%d/m%d", run, mi)
+			method := fmt.Sprintf("/verif.C01/run%d/m%d%s", run/8, mi, c01MethodSuffix(int(run%8)))
 			err := BreakerInterceptor(context.Background(), method, nil, nil, conns[ti],
 				func(ctx context.Context, method string, req, reply interface{}, cc *grpc.ClientConn, opts ...grpc.CallOption) error {
 					ran = true
